@@ -10,6 +10,7 @@ jmp_buf verif_jmp;
 int verif_failed;
 uint64_t verif_obs;
 int verif_verbose;
+int verif_random_mode;
 
 static int replay_mode;
 static uint64_t replay_vals[VERIF_ND_MAX];
@@ -55,7 +56,7 @@ int main(int argc, char** argv) {
   }
   if (argc >= 4 && !strcmp(argv[1], "--random")) {
     uint64_t seed = strtoull(argv[2], 0, 10); long count = atol(argv[3]);
-    long nonvac = 0;
+    long nonvac = 0; verif_random_mode = 1;
     for (long i = 0; i < count; i++) {
       rng_state = seed * 0x2545F4914F6CDD1DULL + (uint64_t)i * 0x9E3779B97F4A7C15ULL + 1;
       verif_nd_n = 0; verif_failed = 0; verif_obs = 1469598103934665603ULL;
